@@ -2,7 +2,7 @@
 import ast
 import itertools
 
-from .. import coqrun, py2gallina as pg
+from .. import coqrun, py2gallina as pg, symex as X
 from ..core import Corr, Untranslatable, Violation
 
 ID = "C13"
@@ -23,33 +23,41 @@ RULE = "(layout, world, rank, limit, batch size, iterations) tuples; non-trivial
 
 # ------------------------------------------------------------------------------------------------
 def generate(ctx):
+    """chunks(): how many chunks are yielded and which slice each is, read off a symbolic execution (vlib/symex.py) of one
+    generic iteration of its loop."""
     path = ctx.src("direct/utils/__init__.py")
     tree, _ = pg.parse_file(path)
-    fn = pg.find_def(tree, "chunks", path)
-    args = [a.arg for a in fn.args.args]
-    if args != ["list_to_chunk", "number_of_chunks"]:
-        raise Untranslatable("chunks: unexpected parameters %s" % args, fn.lineno, path)
-    body = pg.strip_doc(fn.body)
-    calls = {"len": lambda node, tr: _len_call(node, tr)}
-    tr = pg.ExprT({"number_of_chunks": "k", "len(list_to_chunk)": "len"}, path, calls)
-    prefix, rest = pg.let_chain(body, tr)
-    if len(rest) != 1 or not isinstance(rest[0], ast.For):
-        raise Untranslatable("chunks: expected a single for-loop after the prologue", fn.lineno, path)
-    loop = rest[0]
-    if not (isinstance(loop.target, ast.Name) and isinstance(loop.iter, ast.Call) and tr.name_of(loop.iter.func) == "range" and len(loop.iter.args) == 1 and not loop.orelse):
-        raise Untranslatable("chunks: loop is not `for idx in range(n)`", loop.lineno, path)
-    count = tr.z(loop.iter.args[0])
-    tr.env[loop.target.id] = "idx"
-    p2, rest2 = pg.let_chain(loop.body, tr)
-    if len(rest2) != 1 or not (isinstance(rest2[0], ast.Expr) and isinstance(rest2[0].value, ast.Yield)):
-        raise Untranslatable("chunks: loop body must end in a single yield", loop.lineno, path)
-    y = rest2[0].value.value
-    if not (isinstance(y, ast.Subscript) and tr.name_of(y.value) == "list_to_chunk" and isinstance(y.slice, ast.Slice) and y.slice.step is None and y.slice.lower is not None and y.slice.upper is not None):
-        raise Untranslatable("chunks: yield must be list_to_chunk[a:b]", loop.lineno, path)
-    lo, hi = tr.z(y.slice.lower), tr.z(y.slice.upper)
-    out = "Definition chunks_count (len k : Z) : Z := %s %s.\n" % (prefix, count)
-    out += "Definition chunk_lo (len k idx : Z) : Z := %s %s %s.\n" % (prefix, p2, lo)
-    out += "Definition chunk_hi (len k idx : Z) : Z := %s %s %s.\n" % (prefix, p2, hi)
+    S = lambda n: ("sym", n)
+    lst, k = S("list_to_chunk"), S("number_of_chunks")
+    hits, stopped = X.watch_calls(tree, path, "chunks", ["yield"])
+    probes = hits["$probes"]
+    if len(probes) != 1 or not hits["yield"]:
+        raise Untranslatable("chunks: not one loop that yields (%s)" % stopped, None, path)
+    _ln, _known, it, _env = probes[0]
+    if not (it[0] == "call" and it[1] == S("range") and len(it[2]) == 1 and not it[3]):
+        raise Untranslatable("chunks: the loop is not over range(n): %s" % X.show(it)[:80], None, path)
+    d = 1
+    leaf = {k: "k", ("call", S("len"), (lst,), ()): "len", ("bv", d): "idx"}
+    em = X.Emit(lambda v: leaf.get(v), path)
+    out = "Definition chunks_count (len k : Z) : Z := %s.\n" % em.z(it[2][0])
+
+    def tree_of(which):
+        """if-tree over the path conditions under which each yield is reached"""
+        term = None
+        for conds, args, _kw in reversed(hits["yield"]):
+            v = args[0]
+            if not (v[0] == "sub" and v[1] == lst and v[2][0] == "slice" and v[2][3] == X.NONE and X.NONE not in (v[2][1], v[2][2])):
+                raise Untranslatable("chunks: what is yielded is not list_to_chunk[a:b]: %s" % X.show(v)[:80], None, path)
+            e = em.z(v[2][which])
+            if term is None:
+                term = e
+            else:
+                cond = " && ".join(em.b(c) if pol else "(negb %s)" % em.b(c) for c, pol in conds) or "true"
+                term = "(if %s then %s else %s)" % (cond, e, term)
+        return term
+
+    out += "Definition chunk_lo (len k idx : Z) : Z := %s.\n" % tree_of(1)
+    out += "Definition chunk_hi (len k idx : Z) : Z := %s.\n" % tree_of(2)
     return [pg.write_gen(ctx, "C13_gen", out)]
 
 
